@@ -602,6 +602,12 @@ func (w *world) opResolverErr(op *Op) {
 	w.checkPub("ResolverError", R0)
 }
 
+// okStatusErr is an error whose GRPCStatus() says OK (status.Code() of it is OK although it is not nil).
+type okStatusErr struct{}
+
+func (okStatusErr) Error() string              { return "failed, but the attached status says OK" }
+func (okStatusErr) GRPCStatus() *status.Status { return status.New(codes.OK, "") }
+
 // resolverErrT is an error of a type of the harness's own (a resolver may report any error type).
 type resolverErrT struct{ code int }
 
@@ -1378,7 +1384,7 @@ func (w *world) doDone(ci, outcome, rep int, replyKeys []int) {
 	var err error
 	outName := "ok"
 	discarded := false
-	switch o := ((outcome % 26) + 26) % 26; {
+	switch o := ((outcome % 27) + 27) % 27; {
 	case o == 25:
 		// not a completion at all: gRPC found no ready transport on the picked connection, called Done(DoneInfo{})
 		// (nil error, nothing sent or received) and picks again
@@ -1394,8 +1400,11 @@ func (w *world) doDone(ci, outcome, rep int, replyKeys []int) {
 		err, outName = fmt.Errorf("a plain error"), "plain-error"
 	case o == 24:
 		err, outName = io.EOF, "io-EOF"
+	case o == 26:
+		// a non-nil error that carries a status with code OK: the call failed all the same
+		err, outName = okStatusErr{}, "error-with-status-OK"
 	}
-	switch ((outcome % 26) + 26) % 26 {
+	switch ((outcome % 27) + 27) % 27 {
 	case 1:
 		err, outName = status.Error(codes.Unavailable, "unavailable"), "unavailable"
 	case 2:
